@@ -681,7 +681,8 @@ register("C20", title="no data races", pkg=".", race=True,
 
 
 register("C04", title="exactly-once, in-order resume", pkg="./internal/api",
-         parts=[{"test": "^TestVerifC04$", "children": {"quick": 16, "thorough": 16}, "cases": {"quick": 8, "thorough": 190}}],
+         parts=[{"test": "^TestVerifC04$", "children": {"quick": 16, "thorough": 16}, "cases": {"quick": 8, "thorough": 190}},
+                {"pkg": ".", "test": "^TestVerifC04Admin$", "children": {"quick": 2, "thorough": 8}, "cases": {"quick": 3, "thorough": 30}}],
          timeout={"quick": 400, "thorough": 3000}, level="exploration",
          rule="2-3 replicas (real api.HTTP + OutputStream + a real single-voter raft node) receive the same seeded batch list (1-5 replies per batch, random "
               "recipient sets, unique payloads) following independent lag plans; a client reads GET /messages over HTTP in seeded segments: it disconnects "
